@@ -18,6 +18,10 @@ func init() {
 }
 
 func runC13(p *Prog, r *Report) {
+	if want("C13.19") {
+		// table iteration reports a block that cannot be read (shared with C02.8)
+		ruleIndexedIterator(p, r, "C13.19")
+	}
 	if want("C13.18") {
 		// filter generator and probe agree: a filtered lookup finds what was added (shared with C16)
 		ruleBloomAgreement(p, r, "C13.18")
